@@ -131,6 +131,19 @@ def handle1 (line : String) : String :=
       else if mode == "missing" || mode == "isdir" then answer "=" "err"
       else bad
     | _, _, _ => bad
+  | ["applyfull", ph, h] =>
+    -- `applyfull <path hex> <patch hex>`: the patch (built by the generator: an AddFile command with
+    -- non-empty blocks for that path, then EOF_) is applied to a tree in which the path is a link to
+    -- a device whose every write fails (`/dev/full`): the target opens and seeks, the write does
+    -- not.  "A patch that fails part-way reports an error rather than success": expected `err`,
+    -- provided the same patch on a tree with a regular file at the path succeeds (sanity of the case)
+    match Bytes.ofHex ph, Bytes.ofHexFast h with
+    | some p, some b =>
+      let path := Fs.components p
+      let pre := (Fs.prefixes path).filter (fun q => !q.isEmpty)
+      let (o, _) := applyOutcome .dir pre.dropLast [path] b
+      if o == "ok" then answer "=" "err" ["io-fault:write"] else bad
+    | _, _ => bad
   | ["execlookup", mode, h] =>
     match Bytes.ofHexFast h with
     | some b =>
